@@ -1,0 +1,119 @@
+// Copyright 2026 The Mellium Contributors.
+// Use of this source code is governed by the BSD 2-clause
+// license that can be found in the LICENSE file.
+
+//go:build verif
+
+// This file contains no code. It carries machine-checked contracts (lines
+// starting with "//@") for the functions of this package; they are read by the
+// verification tooling and are invisible to the compiler.
+
+package jid
+
+// ---------------------------------------------------------------------------
+// assumed contracts of dependencies
+
+//@ extern bytes.IndexAny
+//@   pure
+//@   requires forall k int :: 0 <= k && k < len(chars) ==> chars[k] < 0x80
+//@   ensures -1 <= result && result < len(s)
+//@   ensures result >= 0 ==> inset(chars, s[result])
+//@   ensures result >= 0 ==> forall j int :: 0 <= j && j < result ==> !inset(chars, s[j])
+//@   ensures result == -1 ==> forall j int :: 0 <= j && j < len(s) ==> !inset(chars, s[j])
+
+//@ extern bytes.IndexRune
+//@   pure
+//@   requires 0 <= r && r < 0x80
+//@   ensures -1 <= result && result < len(s)
+//@   ensures result >= 0 ==> s[result] == byte(r)
+//@   ensures result >= 0 ==> forall j int :: 0 <= j && j < result ==> s[j] != byte(r)
+//@   ensures result == -1 ==> forall j int :: 0 <= j && j < len(s) ==> s[j] != byte(r)
+
+// ---------------------------------------------------------------------------
+// XEP-0106 escaping (escape.go)
+
+//@ spec esc(c byte) bool = c == ' ' || c == '"' || c == '&' || c == '\'' || c == '/' || c == ':' || c == '<' || c == '>' || c == '@' || c == '\\'
+//@ spec ishexS(c byte) bool = ('0' <= c && c <= '9') || ('a' <= c && c <= 'f') || ('A' <= c && c <= 'F')
+//@ spec hexval(c byte) byte = ite('0' <= c && c <= '9', c - '0', ite('a' <= c && c <= 'f', c - 'a' + 10, ite('A' <= c && c <= 'F', c - 'A' + 10, 0)))
+//@ spec hexd(n byte) byte = ite(n < 10, '0' + n, 'a' + (n - 10))
+//@ spec ten(a byte, b byte) bool = ishexS(a) && ishexS(b) && esc(hexval(a)<<4 | hexval(b))
+
+//@ func ishex
+//@   ensures[C16] result == ishexS(c)
+
+//@ func unhex
+//@   ensures[C16] result == hexval(c)
+
+//@ func shouldUnescape
+//@   requires len(s) >= 2
+//@   ensures[C16] result == ten(s[0], s[1])
+
+//@ spec cnt(s []byte, i int) int = ite(i <= 0, 0, cnt(s, i-1) + ite(esc(s[i-1]), 1, 0))
+
+//@ lemma cntFlat(s []byte, a int, b int) induct b
+//@   requires 0 <= a && a <= b
+//@   requires forall j int :: a <= j && j < b ==> !esc(s[j])
+//@   ensures cnt(s, b) == cnt(s, a)
+//@   pattern cnt(s, a), cnt(s, b)
+
+//@ func (escapeMapping).Span
+//@   ensures[C16] (forall j int :: 0 <= j && j < len(src) ==> !esc(src[j])) ==> n == len(src) && err == nil
+//@   ensures[C16] (exists j int :: 0 <= j && j < len(src) && esc(src[j])) ==> err == transform.ErrEndOfSpan && 0 <= n && n < len(src) && esc(src[n]) && (forall j int :: 0 <= j && j < n ==> !esc(src[j]))
+
+//@ func (escapeMapping).Transform
+//@   requires disjoint(dst, src)
+//@   ensures 0 <= nSrc && nSrc <= len(src) && 0 <= nDst && nDst <= len(dst)
+//@   ensures[C16] err == nil || err == transform.ErrShortDst
+//@   ensures[C16] err == nil ==> nSrc == len(src)
+//@   ensures[C16] nDst == nSrc + 2*cnt(src, nSrc)
+//@   ensures[C16] forall k int :: 0 <= k && k < nDst ==> dst[k] == '\\' || !esc(dst[k])
+//@   ensures[C16] err == transform.ErrShortDst ==> nSrc < len(src) && ite(esc(src[nSrc]), nDst+3 > len(dst), nDst == len(dst))
+//@   loop 1
+//@     invariant 0 <= nSrc && nSrc <= len(src) && 0 <= nDst && nDst <= len(dst)
+//@     invariant nDst == nSrc + 2*cnt(src, nSrc)
+//@     invariant forall k int :: 0 <= k && k < nDst ==> dst[k] == '\\' || !esc(dst[k])
+//@     decreases len(src) - nSrc
+
+// Unescaping. isE(s, p): an escape sequence starts at p. Escape sequences
+// never overlap (the two bytes after the backslash are hex digits), so a
+// position is a unit boundary iff no sequence starts one or two bytes before it
+// and the output length of a consumed prefix is p - 2*ecnt(s, p).
+
+//@ spec isE(s []byte, p int) bool = 0 <= p && p+2 < len(s) && s[p] == '\\' && ten(s[p+1], s[p+2])
+//@ spec ecnt(s []byte, i int) int = ite(i <= 0, 0, ecnt(s, i-1) + ite(isE(s, i-1), 1, 0))
+//@ spec dec(a byte, b byte) byte = hexval(a)<<4 | hexval(b)
+
+//@ lemma ecntFlat(s []byte, a int, b int) induct b
+//@   requires 0 <= a && a <= b
+//@   requires forall j int :: a <= j && j < b ==> s[j] != '\\'
+//@   ensures ecnt(s, b) == ecnt(s, a)
+//@   pattern ecnt(s, a), ecnt(s, b)
+
+//@ func (unescapeMapping).Transform
+//@   requires disjoint(dst, src)
+//@   ensures 0 <= nSrc && nSrc <= len(src) && 0 <= nDst && nDst <= len(dst)
+//@   ensures[C16] err == nil || err == transform.ErrShortDst || err == transform.ErrShortSrc
+//@   ensures[C16] err == nil ==> nSrc == len(src)
+//@   ensures[C16] nDst == nSrc - 2*ecnt(src, nSrc)
+//@   ensures[C16] !isE(src, nSrc-1) && !isE(src, nSrc-2)
+//@   ensures[C16] err == transform.ErrShortSrc ==> !atEOF && nSrc < len(src) && src[nSrc] == '\\' && (nSrc == len(src)-1 || (nSrc == len(src)-2 && ishexS(src[nSrc+1])))
+//@   ensures[C16] err == transform.ErrShortDst ==> nSrc < len(src) && nDst == len(dst)
+//@   loop 1
+//@     invariant 0 <= nSrc && nSrc <= len(src) && 0 <= nDst && nDst <= len(dst)
+//@     invariant nDst == nSrc - 2*ecnt(src, nSrc)
+//@     invariant !isE(src, nSrc-1) && !isE(src, nSrc-2)
+//@     decreases len(src) - nSrc
+//@   callsite shouldUnescape#1
+//@     assert ecnt(src, nSrc+idx) == ecnt(src, nSrc)
+
+//@ func (unescapeMapping).Span
+//@   ensures 0 <= n && n <= len(src)
+//@   ensures[C16] err == nil || err == transform.ErrEndOfSpan || err == transform.ErrShortSrc
+//@   ensures[C16] forall p int :: 0 <= p && p < n ==> !isE(src, p)
+//@   ensures[C16] err == nil ==> n == len(src)
+//@   ensures[C16] err == transform.ErrEndOfSpan ==> isE(src, n)
+//@   ensures[C16] err == transform.ErrShortSrc ==> !atEOF && n < len(src) && src[n] == '\\' && (n == len(src)-1 || (n == len(src)-2 && ishexS(src[n+1])))
+//@   loop 1
+//@     invariant 0 <= n && n <= len(src)
+//@     invariant forall p int :: 0 <= p && p < n ==> !isE(src, p)
+//@     decreases len(src) - n
